@@ -111,7 +111,7 @@ func genScript(r *hx.Rand, d *graphs.Desc, in *graphs.Instance, printable map[in
 			}
 		case 3, 4:
 			if container {
-				ops = append(ops, COp{N: "iter", Node: id})
+				ops = append(ops, COp{N: hx.Pick(r, []string{"iter", "iter", "elements"}), Node: id})
 			}
 		case 5:
 			if container {
@@ -246,6 +246,19 @@ func runOp(in *graphs.Instance, th *starlark.Thread, op COp) (out []Res) {
 		it.Done()
 		out = append(out, Res{"unit"})
 		return out
+	case "elements":
+		// the go1.23 push iterators of iter.go (Elements, Entries)
+		out = append(out, Res{"unit"})
+		if d, ok := v.(*starlark.Dict); ok {
+			for k := range starlark.Entries(d) {
+				out = append(out, valRes(in, k))
+			}
+		} else {
+			for x := range starlark.Elements(v.(starlark.Iterable)) {
+				out = append(out, valRes(in, x))
+			}
+		}
+		return append(out, Res{"stop"}, Res{"unit"})
 	case "compare":
 		eq, err := starlark.Equal(v, in.Objs[op.B])
 		if err != nil {
@@ -420,7 +433,7 @@ func scenarioValues(seed uint64, n, rounds, scriptLen int, full bool) {
 				}
 				seen[x] = true
 				nd := d.Nodes[x]
-				if nd.Kind == "struct" || nd.Kind == "func" || nd.Kind == "bound" {
+				if nd.Kind == "struct" || nd.Kind == "ssum" || nd.Kind == "func" || nd.Kind == "bound" {
 					ok = false
 				}
 				for _, e := range nd.Elems {
@@ -755,7 +768,7 @@ func scenarioFootprints(seed uint64, rounds int) {
 				}
 				seen[x] = true
 				nd := d.Nodes[x]
-				if nd.Kind == "struct" || nd.Kind == "func" || nd.Kind == "bound" {
+				if nd.Kind == "struct" || nd.Kind == "ssum" || nd.Kind == "func" || nd.Kind == "bound" {
 					printable[id] = false
 				}
 				for _, e := range nd.Elems {
@@ -780,6 +793,10 @@ func scenarioFootprints(seed uint64, rounds int) {
 			}
 			if nd.Kind == "list" || nd.Kind == "tuple" {
 				plans = append(plans, []FStep{{Op: "index", Node: id, I: r.Intn(len(nd.Elems) + 1)}})
+			}
+			if container && starlark.Len(probe.Objs[id]) > 0 {
+				// the go1.23 push iterators: state observed INSIDE the range loop, and after it
+				plans = append(plans, []FStep{{Op: "ebegin", Node: id}, {Op: "edone", Node: id}})
 			}
 			other := r.Intn(len(d.Nodes))
 			if probe.Objs[other] != nil {
@@ -809,6 +826,32 @@ func scenarioFootprints(seed uint64, rounds int) {
 				th := &starlark.Thread{Name: "fp"}
 				var its []starlark.Iterator
 				seq := FSeq{}
+				if plan[0].Op == "ebegin" {
+					v := in.Objs[plan[0].Node]
+					before := stateOf(in)
+					var mid []objState
+					if d, ok := v.(*starlark.Dict); ok {
+						for range starlark.Entries(d) {
+							if mid == nil {
+								mid = stateOf(in)
+							}
+						}
+					} else {
+						for range starlark.Elements(v.(starlark.Iterable)) {
+							if mid == nil {
+								mid = stateOf(in)
+							}
+						}
+					}
+					if mid != nil {
+						plan[0].Writes = diffStates(before, mid)
+						plan[1].Writes = diffStates(mid, stateOf(in))
+						seq.Steps = append(seq.Steps, plan[0], plan[1])
+						o.Steps += 2
+						o.Seqs = append(o.Seqs, seq)
+					}
+					continue
+				}
 				for _, st := range plan {
 					before := stateOf(in)
 					var v starlark.Value
@@ -912,11 +955,11 @@ func main() {
 			{"proginit", 2, 4, 0, false, 0}, {"proginit", 8, 4, 0, false, 0}, {"proginit", 32, 2, 0, false, 0},
 			{"footprints", 1, 15, 0, false, 0}}
 	} else {
-		jobs = []job{{"values", 2, 400, 16, true, 0}, {"values", 3, 160, 14, true, 0}, {"values", 8, 320, 14, false, 0}, {"values", 32, 120, 12, false, 0},
-			{"values", 8, 160, 14, false, 2}, {"values", 4, 160, 14, false, 4},
-			{"position", 2, 240, 0, false, 0}, {"position", 8, 240, 0, false, 0}, {"position", 32, 100, 0, false, 0}, {"position", 8, 120, 0, false, 2},
-			{"proginit", 2, 160, 0, false, 0}, {"proginit", 8, 160, 0, false, 0}, {"proginit", 32, 60, 0, false, 0}, {"proginit", 8, 80, 0, false, 2},
-			{"footprints", 1, 600, 0, false, 0}}
+		jobs = []job{{"values", 2, 1200, 16, true, 0}, {"values", 3, 480, 14, true, 0}, {"values", 8, 960, 14, false, 0}, {"values", 32, 360, 12, false, 0},
+			{"values", 8, 480, 14, false, 2}, {"values", 4, 480, 14, false, 4},
+			{"position", 2, 720, 0, false, 0}, {"position", 8, 720, 0, false, 0}, {"position", 32, 300, 0, false, 0}, {"position", 8, 360, 0, false, 2},
+			{"proginit", 2, 480, 0, false, 0}, {"proginit", 8, 480, 0, false, 0}, {"proginit", 32, 180, 0, false, 0}, {"proginit", 8, 240, 0, false, 2},
+			{"footprints", 1, 1000, 0, false, 0}}
 	}
 	w := os.Stdout
 	for _, j := range jobs {
